@@ -102,11 +102,19 @@ class C17(BaseCheck):
 
   @staticmethod
   def _observe(ret):
+    """What a caller sees: get() without blocking.  A result that carries both a value and
+    an exception (set() after set_exception()) is reported as 'both'."""
     if not ret.ready():
       return ('pending', None)
+    try:
+      v = ret.get(block=False)
+    except BaseException as e:  # noqa
+      if ret.successful():
+        return ('both', (repr(ret.value), str(e)))
+      return ('fail', str(e))
     if ret.exception is not None:
-      return ('fail', str(ret.exception))
-    return ('ok', ret.value)
+      return ('both', (repr(v), str(ret.exception)))
+    return ('ok', v)
 
   def _check(self, out, kind, spec, obs, ctx):
     out.obligations += 1
